@@ -17,7 +17,7 @@ def gen_strategy(t, label="strategy"):
                     ("executor", 5)], label)
     d = {"how": s}
     if s == "shuffle":
-        d["shuffle"] = t.pick([True, 2, 5, 11, 42], label + "-seed")
+        d["shuffle"] = t.pick([True, 2, 5, 11, 42, 2 ** 32, 3 * 2 ** 32 + 1, 2 ** 64], label + "-seed")
     elif s == "parallel":
         d["parallel"] = t.pick([True, 2, 3], label + "-par")
         if t.flag(1, 3, label + "-shuf"):
